@@ -65,7 +65,7 @@ SPEC = {
                   "- Add including file.register and the registrar's invalidate+refresh (f518e0b), rotate1, invalidateCounters' walk over every registered counter, the nested walk of an inline extension - whose per-counter work IS step_thread of the single-counter model on that counter's view; "
                   "C03_multi_step_projects proves that every multi step is, for every counter, a stutter, one single-counter step, or one of two registration transitions (the claimer takes on its redo; a walk drops a counter that is not on the list it loaded), "
                   "C03_multi_invariant that the single-counter invariant therefore holds of every counter's view along every multi schedule - including the window in which a counter is claimed but not yet linked, where the claimer's pending redo answers for the counter the walk missed - and "
-                  "C03_multi_upper_bound / _exact_at_quiescence / _no_nil_deref are its corollaries. These multi theorems carry two hypotheses on the FINAL state of the run: ms_bad = false (envelope: no thread's lookups extend the file twice; no Add extends the file on a counter another goroutine is still registering - there the own invalidate is skipped and the invariant's clause 'the grower holds the lock with havePtr clear' is false) and ms_chk = false (run-time self checks of the multi-level control - embedded threads where the walk expects them). PARTIAL (Proofs/CounterMultiCtl.v): for systems in which no lookup extends the file (`nogrow`: file not full, every rotation a changerM NewFile; they include the f518e0b registration race with any number of goroutines per fresh counter and any number of rotations) the control invariant GI - program points of the embedded threads along the walk, list lengths, focus on a claimed counter, quiet embedded threads on return, ONE linker per claimed counter hence a duplicate-free registration list - is proved inductive (C03_multi_control_invariant_partial), so NO schedule sets ms_chk or ms_bad (C03_multi_flags_clear_partial) and C03_multi_invariant_partial / _upper_bound_partial / _exact_at_quiescence_partial / _no_nil_deref_partial / _step_projects_partial carry no hypothesis on the flags; PARTIAL 2 (Proofs/CounterMultiCtl2.v): with full files and changerM FullFile admitted the same invariant holds, and no flag is set, UP TO THE FIRST INLINE EXTENSION of every run (C03_multi_flags_clear_partial2 / C03_multi_invariant_partial2: hypothesis has_grown = false on the final state; m_grown is monotone); GENERAL (Proofs/CounterMultiCtl3.v): with the second walk level in the invariant - T3 of a thread = CIb of its base view (control popped, own embedded thread replaced by a stand-in at LCas) + wstate over the virtual family of the nested walk (m_nest j, or the own thread with its G program points mapped to IvLoad/IvCas/RfLoad/CClose) - every step of a thread preserves T3 and passes every self check or sets ms_bad (thread_step3), GI3 over the thread list is inductive (C03_multi_control_invariant), hence the self checks NEVER fail along a run that stays inside the envelope (C03_multi_self_check_never_fails: ms_bad = false -> ms_chk = false, for every ctl_init system: full files and changerM FullFile included) and C03_multi_invariant / _upper_bound / _exact_at_quiescence / _no_nil_deref / _step_projects carry ms_bad = false as their ONLY flag hypothesis (the versions with both flags, for arbitrary states, are the *_with_flags theorems); the lock-step still reports a set ms_chk as a DIFF. "
+                  "C03_multi_upper_bound / _exact_at_quiescence / _no_nil_deref are its corollaries. These multi theorems carry two hypotheses on the FINAL state of the run: ms_bad = false (envelope: no thread's lookups extend the file twice; no Add extends the file on a counter another goroutine is still registering - there the own invalidate is skipped and the invariant's clause 'the grower holds the lock with havePtr clear' is false) and ms_chk = false (run-time self checks of the multi-level control - embedded threads where the walk expects them). PARTIAL (Proofs/CounterMultiCtl.v): for systems in which no lookup extends the file (`nogrow`: file not full, every rotation a changerM NewFile; they include the f518e0b registration race with any number of goroutines per fresh counter and any number of rotations) the control invariant GI - program points of the embedded threads along the walk, list lengths, focus on a claimed counter, quiet embedded threads on return, ONE linker per claimed counter hence a duplicate-free registration list - is proved inductive (C03_multi_control_invariant_partial), so NO schedule sets ms_chk or ms_bad (C03_multi_flags_clear_partial) and C03_multi_invariant_partial / _upper_bound_partial / _exact_at_quiescence_partial / _no_nil_deref_partial / _step_projects_partial carry no hypothesis on the flags; PARTIAL 2 (Proofs/CounterMultiCtl2.v): with full files and changerM FullFile admitted the same invariant holds, and no flag is set, UP TO THE FIRST INLINE EXTENSION of every run (C03_multi_flags_clear_partial2 / C03_multi_invariant_partial2: hypothesis has_grown = false on the final state; m_grown is monotone); GENERAL (Proofs/CounterMultiCtl3.v): with the second walk level in the invariant - T3 of a thread = CIb of its base view (control popped, own embedded thread replaced by a stand-in at LCas) + wstate over the virtual family of the nested walk (m_nest j, or the own thread with its G program points mapped to IvLoad/IvCas/RfLoad/CClose) - every step of a thread preserves T3 and passes every self check or sets ms_bad (thread_step3), GI3 over the thread list is inductive (C03_multi_control_invariant), hence the self checks NEVER fail along a run that stays inside the envelope (C03_multi_self_check_never_fails: ms_bad = false -> ms_chk = false, for every ctl_init system: full files and changerM FullFile included) and C03_multi_invariant / _upper_bound / _exact_at_quiescence / _no_nil_deref / _step_projects carry ms_bad = false as their ONLY flag hypothesis (the versions with both flags, for arbitrary states, are the *_with_flags theorems); ms_bad is characterised exactly (C03_multi_bad_set_exactly_by: it is set by a step that extends the file although this thread's lookups extended it before, or by the head load of a nested walk that does not find the extending counter on the list - an Add on a counter another goroutine is still registering - and by no other step); C03_multi_example_open_of_full_file: the hypotheses hold of the first open of a full file, and the run with the opener's inline extension ends with both flags clear; the lock-step still reports a set ms_chk as a DIFF. "
                   "The multi scenarios of suite conc run in lock step against the extracted CounterMulti; changers SameFile / NoFile at the multi level and a third nesting level are not modelled. The extension of the file from inside a lock holder's own lookup IS modelled (LLook2 with s_full: "
                   "store of the new mapping, inline invalidate / refresh / close, assignment of the returned pointer; C03_grower_must_look_up_again); "
                   "the same extension by a CHANGER's own refresh-lookup (first open - target FullFile - of an existing file without room, by a process with pending increments) is modelled too (t_prev2: the mapping a thread's own lookup replaced; lock-step scenario openfull); "
